@@ -18,6 +18,6 @@ Lemma tie_mark_one now answers c name ty cl :
 Proof. reflexivity. Qed.
 
 Definition sites_C06_counts : Prop :=
-  ncmp_handlers_record_manager_RecordManager_async_updates_from_response = 1 /\
+  sites_found_C06 = true /\ ncmp_handlers_record_manager_RecordManager_async_updates_from_response = 1 /\
   ncmp_cache_DNSCache_async_mark_unique_records_older_than_1s_to_expire = 1.
-Lemma sites_C06_counts_ok : sites_C06_counts. Proof. split; reflexivity. Qed.
+Lemma sites_C06_counts_ok : sites_C06_counts. Proof. repeat split; reflexivity. Qed.
